@@ -16,6 +16,7 @@ mod common;
 mod indep;
 mod rng;
 mod snippet;
+mod wrap;
 
 mod c01;
 mod c02;
@@ -49,7 +50,7 @@ use std::time::{Duration, Instant};
 
 use serde_json::{json, Value};
 
-use common::{Failure, Notes, Params, Stop, Verdict, SUITE_NAMES};
+use common::{Failure, Finding, Notes, Params, Stop, Verdict, SUITE_NAMES};
 use rng::{splitmix64, TestRng};
 
 pub type ScnFn = fn(&mut TestRng, &Params, &mut Notes) -> Verdict;
@@ -122,6 +123,69 @@ fn scenarios(property: &str) -> Option<Vec<Scenario>> {
     })
 }
 
+/// Finding probes of a property: deterministic constructions that are run once per run (per applicable
+/// ciphersuite) BEFORE the generated cases.  They look for a KNOWN literal deviation of the unchanged tree from
+/// the text of the property and report it as `RT-FINDING`; they never fail.  (`weight` is not used.)
+fn probes(property: &str) -> Vec<Scenario> {
+    match property {
+        "C10" => c10::probes(),
+        "C12" => c12::probes(),
+        _ => Vec::new(),
+    }
+}
+
+/// The random stream of a probe does not depend on `--seed`: same construction in every run.
+fn probe_case_seed(probe: usize, suite: usize) -> u64 {
+    let mut x = 0x5052_4F42_4553_u64 ^ ((probe as u64) << 32) ^ suite as u64;
+    splitmix64(&mut x)
+}
+
+/// key -> (suites in which it was observed, detail of the first observation)
+type Findings = std::collections::BTreeMap<String, (Vec<&'static str>, String)>;
+
+fn record_finding(all: &Mutex<Findings>, suite: usize, f: &Finding) {
+    let mut all = all.lock().unwrap_or_else(|e| e.into_inner());
+    let entry = all.entry(f.key.clone()).or_insert_with(|| (Vec::new(), f.detail.clone()));
+    if !entry.0.contains(&SUITE_NAMES[suite]) {
+        entry.0.push(SUITE_NAMES[suite]);
+    }
+}
+
+fn run_probes(property: &str, all: &Mutex<Findings>) {
+    for (pi, probe) in probes(property).iter().enumerate() {
+        for (suite, run) in probe.runs.iter().enumerate() {
+            let Some(run) = run else { continue };
+            let res = run_case(*run, probe_case_seed(pi, suite));
+            match &res.outcome {
+                Outcome::Finding(f) => record_finding(all, suite, f),
+                Outcome::Pass => {}
+                // a probe is informational: whatever else happens in it gives no verdict
+                Outcome::Skip(why) => eprintln!("[frost-rt] probe {}/{}: no result ({why})", SUITE_NAMES[suite], probe.name),
+                Outcome::Fail(f) => eprintln!(
+                    "[frost-rt] probe {}/{}: construction did not complete ({}: {})",
+                    SUITE_NAMES[suite], probe.name, f.check, f.observed
+                ),
+                Outcome::HarnessBug(b) => eprintln!("[frost-rt] probe {}/{}: {b}", SUITE_NAMES[suite], probe.name),
+            }
+        }
+    }
+}
+
+/// `RT-FINDING property=<ID> key=<key> suite=<suite[,suite...]> detail="<one line>"`, one line per distinct key
+fn print_findings(property: &str, all: &Findings) {
+    for (key, (suites, detail)) in all {
+        println!("RT-FINDING property={property} key={key} suite={} detail={detail:?}", suites.join(","));
+    }
+}
+
+fn findings_json(all: &Findings) -> Value {
+    Value::Array(
+        all.iter()
+            .map(|(key, (suites, detail))| json!({"key": key, "suites": suites, "detail": detail}))
+            .collect(),
+    )
+}
+
 const PROPERTIES: [&str; 20] = [
     "C01", "C02", "C03", "C04", "C05", "C06", "C07", "C08", "C09", "C10", "C11", "C12", "C13", "C14", "C15", "C16",
     "C17", "C18", "C19", "C20",
@@ -165,6 +229,8 @@ pub enum Outcome {
     Pass,
     Skip(String),
     Fail(Failure),
+    /// a known finding was observed: reported, counts as a passing case
+    Finding(Finding),
     /// the harness itself panicked: no verdict about the code under test
     HarnessBug(String),
 }
@@ -185,6 +251,7 @@ fn run_case(run: ScnFn, case_seed: u64) -> CaseResult {
         Ok(Ok(())) => Outcome::Pass,
         Ok(Err(Stop::Skip(why))) => Outcome::Skip(why),
         Ok(Err(Stop::Fail(f))) => Outcome::Fail(f),
+        Ok(Err(Stop::Finding(f))) => Outcome::Finding(f),
         Err(_) => {
             let (msg, loc) = LAST_PANIC
                 .with(|p| p.borrow_mut().take())
@@ -242,6 +309,7 @@ fn failure_json(
     case_seed: u64,
     res: &CaseResult,
     f: &Failure,
+    findings: &Findings,
 ) -> Value {
     let snippet = snippet::make(property, SUITE_NAMES[suite], scenario, &res.params, &res.notes);
     json!({
@@ -259,6 +327,8 @@ fn failure_json(
         "check": f.check,
         "expected": f.expected,
         "observed": f.observed,
+        // known findings observed in this run (never the reason of the verdict)
+        "findings": findings_json(findings),
         "replay": "run_rt.py <PROPERTY> --repo <TREE> --replay <this file>",
         "snippet": snippet,
     })
@@ -288,11 +358,13 @@ fn cmd_run(property: &str, seed: u64, budget: Duration, out: Option<String>, thr
     let bugs: Arc<Mutex<Vec<String>>> = Arc::new(Mutex::new(Vec::new()));
     let skip_reasons: Arc<Mutex<Vec<String>>> = Arc::new(Mutex::new(Vec::new()));
     let per_suite: Arc<Vec<AtomicU64>> = Arc::new((0..6).map(|_| AtomicU64::new(0)).collect());
+    let findings: Arc<Mutex<Findings>> = Arc::new(Mutex::new(Findings::new()));
+    run_probes(property, &findings);
     let start = Instant::now();
 
     let mut handles = Vec::new();
     for _ in 0..threads.max(1) {
-        let (scns, next, stop, passed, skipped, found, bugs, skip_reasons, per_suite) = (
+        let (scns, next, stop, passed, skipped, found, bugs, skip_reasons, per_suite, findings) = (
             scns.clone(),
             next.clone(),
             stop.clone(),
@@ -302,6 +374,7 @@ fn cmd_run(property: &str, seed: u64, budget: Duration, out: Option<String>, thr
             bugs.clone(),
             skip_reasons.clone(),
             per_suite.clone(),
+            findings.clone(),
         );
         handles.push(
             std::thread::Builder::new()
@@ -322,6 +395,11 @@ fn cmd_run(property: &str, seed: u64, budget: Duration, out: Option<String>, thr
                     let res = run_case(run, case_seed);
                     match res.outcome {
                         Outcome::Pass => {
+                            passed.fetch_add(1, Ordering::Relaxed);
+                            per_suite[suite].fetch_add(1, Ordering::Relaxed);
+                        }
+                        Outcome::Finding(ref f) => {
+                            record_finding(&findings, suite, f);
                             passed.fetch_add(1, Ordering::Relaxed);
                             per_suite[suite].fetch_add(1, Ordering::Relaxed);
                         }
@@ -361,6 +439,8 @@ fn cmd_run(property: &str, seed: u64, budget: Duration, out: Option<String>, thr
         let _ = h.join();
     }
     let elapsed = start.elapsed().as_secs_f64();
+    let findings = findings.lock().unwrap_or_else(|e| e.into_inner());
+    print_findings(property, &findings);
     let bugs = bugs.lock().unwrap_or_else(|e| e.into_inner());
     if let Some(b) = bugs.first() {
         println!("RT-UNDECIDED property={property} reason=harness-bug detail={b:?}");
@@ -373,7 +453,7 @@ fn cmd_run(property: &str, seed: u64, budget: Duration, out: Option<String>, thr
             Outcome::Fail(fl) => fl.clone(),
             _ => unreachable!("only failures are collected"),
         };
-        let doc = failure_json(property, f.suite, f.scenario, Some(seed), Some(f.index), f.case_seed, &f.res, &fl);
+        let doc = failure_json(property, f.suite, f.scenario, Some(seed), Some(f.index), f.case_seed, &f.res, &fl, &findings);
         let mut wrote = String::from("-");
         if let Some(path) = &out {
             match std::fs::write(path, serde_json::to_string_pretty(&doc).unwrap_or_default() + "\n") {
@@ -469,6 +549,11 @@ fn cmd_replay(path: &str, property_arg: Option<&str>) -> i32 {
             println!("RT-OK property={property} replay={suite_name}/{scenario}/{case_seed} cases=1");
             0
         }
+        Outcome::Finding(f) => {
+            println!("RT-FINDING property={property} key={} suite={suite_name} detail={:?}", f.key, f.detail);
+            println!("RT-OK property={property} replay={suite_name}/{scenario}/{case_seed} cases=1");
+            0
+        }
         Outcome::Skip(why) => {
             println!("RT-UNDECIDED property={property} replay={suite_name}/{scenario}/{case_seed} reason=skipped detail={why:?}");
             2
@@ -495,6 +580,12 @@ fn main() {
             for p in PROPERTIES {
                 let names: Vec<&str> = scenarios(p).unwrap_or_default().iter().map(|s| s.name).collect();
                 println!("{p}: {}", names.join(" "));
+            }
+            for p in PROPERTIES {
+                let names: Vec<&str> = probes(p).iter().map(|s| s.name).collect();
+                if !names.is_empty() {
+                    println!("{p} finding probes: {}", names.join(" "));
+                }
             }
             0
         }
